@@ -274,11 +274,23 @@ class CaseInsensitiveDict(OrderedDict):
         key = key.lower() if isinstance(key, str) else key
         return super().__contains__(key)
 
+    def __delitem__(self, key):
+        key = key.lower() if isinstance(key, str) else key
+        super().__delitem__(key)
+
+    def pop(self, key, *args, **kwargs):
+        key = key.lower() if isinstance(key, str) else key
+        return super().pop(key, *args, **kwargs)
+
 
 class CaseInsensitiveDefaultDict(defaultdict):
     """
     Variant of :any:`collections.defaultdict` that ignores the casing of string keys.
     """
+    def __init__(self, default_factory=None, /, *args, **kwargs):
+        super().__init__(default_factory)
+        self.update(*args, **kwargs)
+
     def __setitem__(self, key, value):
         key = key.lower() if isinstance(key, str) else key
         super().__setitem__(key, value)
@@ -294,6 +306,28 @@ class CaseInsensitiveDefaultDict(defaultdict):
     def __contains__(self, key):
         key = key.lower() if isinstance(key, str) else key
         return super().__contains__(key)
+
+    def __delitem__(self, key):
+        key = key.lower() if isinstance(key, str) else key
+        super().__delitem__(key)
+
+    def pop(self, key, *args):
+        key = key.lower() if isinstance(key, str) else key
+        return super().pop(key, *args)
+
+    def setdefault(self, key, default=None):
+        key = key.lower() if isinstance(key, str) else key
+        return super().setdefault(key, default)
+
+    def update(self, other=(), /, **kwargs):
+        if hasattr(other, 'keys'):
+            for key in other.keys():
+                self[key] = other[key]
+        else:
+            for key, value in other:
+                self[key] = value
+        for key, value in kwargs.items():
+            self[key] = value
 
 
 def strip_inline_comments(source, comment_char='!', str_delim='"\''):
